@@ -642,11 +642,13 @@ def main():
         },
         "assumptions": ["behaviours not sampled by the generators agree with the model", "int32 packet-id overflow, IEEE double order laws for Float, SHA-1/HMAC and raw C memory safety are modelled/observed, not proved (DESIGN.md section 7)"],
         "wall_s": round(wall, 2), "violations": len(reported),
+        "known_findings": [{"signature": kn["sig"], "scenario": kn["replay"], "what": kn["text"]} for kn, _ in known_hits],
     }
     with open(os.path.join(EVID, prop + ".json"), "w") as fh:
         json.dump(ev, fh, indent=1, default=str)
-    log("%s tier=%s seed=%d: %d scenarios, %d theorems (%d discharged), %d model/code differences, %d monitor violations, %d crashes, %.1fs" % (
-        prop, tier, seed, len(flat), obligations, discharged, len(diffs), len(mine), len(crashes), wall))
+    n_known = sum(1 for n_, l_, v in mine if any(x["prop"] == prop and x["sig"] == v.sig() and n_ == "corpus:" + os.path.basename(x["replay"]) for x in known))
+    log("%s tier=%s seed=%d: %d scenarios, %d theorems (%d discharged), %d model/code differences, %d monitor violations%s, %d crashes, %.1fs" % (
+        prop, tier, seed, len(flat), obligations, discharged, len(diffs), len(mine) - n_known, (" + %d known finding(s)" % n_known) if n_known else "", len(crashes), wall))
     if proof_msgs:
         for m in proof_msgs[:6]:
             log("  proof: " + m)
